@@ -3,8 +3,8 @@
 
 use crate::rng::Rng;
 
-pub const WORD_ATOMS: [&str; 22] = [
-    "a", "b", "ab", "foo", "bar", "é", "日本", "x1", "e\u{301}", "👨\u{200d}👩\u{200d}👧", "🇩🇪", "\0", "\u{18}", ".", ",", "-", "\u{200b}", "\u{180e}",
+pub const WORD_ATOMS: [&str; 23] = [
+    "\u{fffd}", "a", "b", "ab", "foo", "bar", "é", "日本", "x1", "e\u{301}", "👨\u{200d}👩\u{200d}👧", "🇩🇪", "\0", "\u{18}", ".", ",", "-", "\u{200b}", "\u{180e}",
     "\u{feff}", "\u{1c}", "\u{1f}", "ß",
 ];
 
@@ -297,3 +297,18 @@ pub fn long_text_pair(rng: &mut Rng, n: usize, max_edits: usize) -> (Vec<u8>, Ve
         (b, a)
     }
 }
+
+/// Texts of `n` DISTINCT lines where the new text replaces a block of `drop` lines by `fresh`
+/// fresh lines: with n just below a power-of-two boundary the total number of distinct tokens
+/// crosses it although each side stays below.
+pub fn distinct_lines_pair(rng: &mut Rng, n: usize, drop: usize, fresh: usize) -> (Vec<u8>, Vec<u8>) {
+    let term = *rng.pick(&["\n", "\r\n"]);
+    let la: Vec<String> = (0..n).map(|i| format!("old line {}{}", i, term)).collect();
+    let at = if n > drop { rng.below(n - drop + 1) } else { 0 };
+    let mut lb: Vec<String> = la[..at].to_vec();
+    lb.extend((0..fresh).map(|i| format!("new line {}{}", i, term)));
+    lb.extend_from_slice(&la[(at + drop).min(n)..]);
+    (la.concat().into_bytes(), lb.concat().into_bytes())
+}
+
+pub const BOUNDARIES: [usize; 8] = [256, 1000, 1024, 2048, 4096, 8192, 32768, 65536];
